@@ -494,8 +494,8 @@ func (j *stringsJob) RunUnit(i int, c *run.Ctx) {
 
 func stringsBounds(what string) map[string]string {
 	return map[string]string{
-		"quick":    what + ": every sequence of <=4 tokens over a 42-token alphabet in 3 contexts (bare, $[..], $[?(..)]); ~4k grammar sentences (all step kinds to length 2, all comparison atoms, operand paths of 0..2 steps with 0..2 functions on either side, logical combinations) and every one-token mutant (delete / insert-before / replace at every character, 42 tokens); ~1000 pumped sentences up to 256 characters and their one-character deletions; every path string of the repository's suite and its one-character deletions; each with no config and with functions+accessor mode",
-		"thorough": what + ": token sequences of <=5 tokens; larger sentence set (3-step paths, all pairwise logical combinations) with all one-token mutants; one-token mutants of the suite's paths",
+		"quick":    what + ": every sequence of <=4 tokens over a 46-token alphabet in 3 contexts (bare, $[..], $[?(..)]); ~4k grammar sentences (all step kinds to length 2, all comparison atoms, operand paths of 0..2 steps with 0..2 functions on either side, logical combinations) and every one-token mutant (delete / insert-before / replace at every character, 46 tokens); ~1000 pumped sentences up to 256 characters and their one-character deletions; every path string of the repository's suite and its one-character deletions; each with no config and with functions+accessor mode",
+		"thorough": what + ": token sequences of <=4 tokens over the full alphabet and of 5 tokens over its first 32 (punctuation, operators, a name, numbers, blank); larger sentence set (3-step paths, all pairwise logical combinations) with all one-token mutants; one-token mutants of the suite's paths",
 	}
 }
 
